@@ -1,4 +1,4 @@
 From Coq Require Import Extraction ExtrOcamlBasic.
 From OV Require Import Common.Base C12.Model C12.OWModel C12.SQModel.
 Extraction Language OCaml.
-Extraction "C12_model.ml" init step free_of repaired before_fixes ow_init ow_step sq_init sq_step.
+Extraction "C12_model.ml" init step free_of effective repaired before_fixes ow_init ow_step sq_init sq_step.
